@@ -30,21 +30,22 @@ def set_tier(tier):
     else:
         Budget.z3_ms = int(os.environ.get('PV_Z3_MS', 20000))
         Budget.samples = 60
-        Budget.thr_ms = 5000
+        Budget.thr_ms = 0
         Budget.standin = 4
 
 
 def run_job(args):
-    cid, cfg_idx, tier, seed, limit_s = args
+    cid, cfg_idx, tier, seed, limit_s = args[:5]
+    prefixes = args[5] if len(args) > 5 else None
     set_tier(tier)
     t0 = time.time()
     out = {'contract': cid, 'cfg_idx': cfg_idx, 'paths': 0, 'obligs': [], 'proved': {}, 'engine_error': None,
            'cross': {'validated': 0, 'mismatch': [], 'skipped': 0}, 'solver_calls': 0, 'solver_s': 0.0, 'replays': 0,
-           'samples': []}
+           'samples': [], 'pending': []}
     old = signal.signal(signal.SIGALRM, _alarm)
     signal.alarm(int(limit_s))
     try:
-        _run(cid, cfg_idx, seed, out)
+        _run(cid, cfg_idx, seed, out, prefixes)
     except JobTimeout as e:
         out['engine_error'] = 'timeout: %s' % e
     except sc.EngineError as e:
@@ -60,7 +61,10 @@ def run_job(args):
     return out
 
 
-def _run(cid, cfg_idx, seed, out):
+SLICE_S = 12      # a job that has run this long hands its unexplored path prefixes back to the scheduler
+
+
+def _run(cid, cfg_idx, seed, out, prefixes=None):
     sm, base, np_, math_ = load_repo()
     reg = load_contracts()
     c = reg[cid]
@@ -68,13 +72,17 @@ def _run(cid, cfg_idx, seed, out):
     out['prop'] = c.prop
     out['cfg'] = cfg
     job = {'contract': cid, 'cfg': cfg, 'replays': 0}
-    pending = [[]]
+    pending = [list(p) for p in prefixes] if prefixes else [[]]
     npaths = 0
+    t_start = time.time()
     while pending:
+        if npaths and time.time() - t_start > SLICE_S:
+            out['pending'] = pending          # path prefixes not explored here: re-queued as separate jobs
+            break
         prefix = pending.pop()
         ctx = sc.new_ctx()
         ctx.decisions = list(prefix)
-        env = SymEnv(sm, base, np_, math_, seed * 7919 + npaths)
+        env = SymEnv(sm, base, np_, math_, seed * 7919 + npaths + 31 * len(prefix))
         ck = SymChecker(env, job)
         status = 'ok'
         try:
@@ -133,17 +141,33 @@ def _domain_obligations(ck, ctx):
             continue
         seen.add(key)
         t = time.time()
-        s2 = z3.Solver()
-        s2.set('timeout', Budget.z3_ms)
-        s2._pv_timeout = Budget.z3_ms
-        for f in ctx.facts[:nfacts]:      # facts known when the operation was executed
-            s2.add(f)
-        for f in ctx.assume:
-            s2.add(f)
-        for _, zf, _l in ctx.pc[:plen]:
-            s2.add(zf)
-        s2.add(z3.Not(cond.z3()))
-        r = sc.check(s2)
+        r = z3.unknown
+        negc = z3.Not(cond.z3())
+        for filt in (True, False):
+            s2 = z3.Solver()
+            ms = max(2000, Budget.z3_ms // 4) if filt else Budget.z3_ms
+            s2.set('timeout', ms)
+            s2._pv_timeout = ms
+            rel = None
+            if filt:
+                rel = set(sc.z3_vars(negc))
+                for _, zf, _l in ctx.pc[:plen]:
+                    rel |= sc.z3_vars(zf)
+                for f in ctx.assume:
+                    rel |= sc.z3_vars(f)
+                rel = sc.def_closure(rel)
+                rel.add('pi')
+            for f in ctx.facts[:nfacts]:      # facts known when the operation was executed
+                if rel is None or sc.z3_vars(f) <= rel:
+                    s2.add(f)
+            for f in ctx.assume:
+                s2.add(f)
+            for _, zf, _l in ctx.pc[:plen]:
+                s2.add(zf)
+            s2.add(negc)
+            r = sc.check(s2)
+            if r == z3.unsat or (r == z3.sat and not filt):
+                break
         name = 'domain:' + kind
         if r == z3.unsat:
             ck.obligs.append(Oblig(name, 0, 'proved', 'z3', time.time() - t))
